@@ -1,7 +1,7 @@
 (** C39 — Declared-independent transitions commute; the dependency relation is symmetric.
     Only statements; proofs in SGV.Mc.Indep (any table) and SGV.Mc.McKernelProofs; the table is Gen/DepLut.v,
     regenerated from Transition.cpp by gen/deplut.py on every run. *)
-From SGV Require Import Base.Tactics Mc.Trans Mc.Indep Mc.McKernel Mc.McKernelProofs Gen.DepLut.
+From SGV Require Import Base.Tactics Mc.Trans Mc.Indep Mc.McKernel Mc.McKernelProofs Mc.McKernel2 Mc.McKernel2Proofs Gen.DepLut.
 Local Open Scope Z_scope.
 
 (* Transition::dispatch_depends gives the same answer (or dies the same way) in both orders, for all transitions of
@@ -25,7 +25,8 @@ Proof. exact commute. Qed.
 Print Assumptions C39_commute_sync_partial.
 (* _partial: the full statement ranges over every transition group; closed here: mutex (ASYNC_LOCK, TEST, TRYLOCK,
    UNLOCK, WAIT; non-recursive) and semaphore (ASYNC_LOCK, UNLOCK, WAIT; one pending acquisition per actor), without
-   timeouts.  Not closed: barrier, condition variable x mutex, communications, actor life cycle, random. *)
+   timeouts.  Barrier, communications, actor life cycle and random: C39_commute_partial below.  Not closed: condition
+   variable x mutex. *)
 
 (* the side condition is an invariant of the kernel *)
 Theorem C39_wf_invariant : forall s t, wf_all s -> wf_all (step s t).
@@ -43,4 +44,88 @@ Example C39_nonvacuous :
 Proof.
   split; [split; [intros m; cbn; discriminate | intros k; unfold wfs; cbn; lia]|].
   repeat split; vm_compute; reflexivity.
+Qed.
+
+(* ---- the extended kernel (McKernel2): mutex, semaphore, barrier, actor life cycle, random, communications ----
+   For every well-formed state s and transitions t1, t2 of different actors, both enabled in s: if the checker, looking
+   at the trace s --t1--> . --t2--> . (each transition described as its observer serializes it right after its
+   execution, communications named by any numbering [cid] that is faithful for that trace), declares them independent,
+   then both orders reach the same state and neither transition disables the other. *)
+Theorem C39_commute_partial : forall cid s t1 t2,
+  xwf s -> xaid t1 <> xaid t2 -> xenabled s t1 = true -> xenabled s t2 = true ->
+  cid_ok cid (xstep (xstep s t1) t2) ->
+  xdepends cid s t1 t2 = Some false ->
+  bar_side s t1 t2 ->
+  eqx (xstep (xstep s t1) t2) (xstep (xstep s t2) t1) /\
+  xenabled (xstep s t1) t2 = true /\ xenabled (xstep s t2) t1 = true.
+Proof. exact xcommute. Qed.
+Print Assumptions C39_commute_partial.
+(* _partial: (1) condition variables (CONDVAR_ASYNC_LOCK/WAIT/SIGNAL/BROADCAST and their implicit mutex operations) are
+   not in the model; (2) [bar_side] excludes two BARRIER_ASYNC_LOCK on one barrier whose round lacks exactly one
+   participant (more users than expected_actors_): there the statement is false, see C39_barrier_lock_lock_refuted and
+   the finding barrier-lock-lock-oversubscribed; (3) no match functions, permanent receivers, detached sends, timeouts;
+   an actor ends by ACTOR_EXIT with no request left unwaited (ActorImpl::cleanup_from_self cancelling pending comms is
+   not modelled); TestAny/WaitAny are not steps of the model (their verdict is the one of the comm they wrap). *)
+
+(* the excluded region is really one where the declared independence is wrong: barrier of 2, actor 3 waiting, actors 1 and
+   2 arrive: whoever comes first leaves with 3, the other one is left waiting *)
+Theorem C39_barrier_lock_lock_refuted : exists x a1 a2,
+  wfb x /\ a1 <> a2 /\ ben x a1 BLock = true /\ ben x a2 BLock = true /\
+  depends (Plain (mk_core T_BARRIER_ASYNC_LOCK a1 0)) (Plain (mk_core T_BARRIER_ASYNC_LOCK a2 0)) = Some false /\
+  ~ same_bar (bstep (bstep x a1 BLock) a2 BLock) (bstep (bstep x a2 BLock) a1 BLock).
+Proof.
+  exists {| bn := 2; bq := [3]; bgr := [] |}, 1, 2.
+  split; [unfold wfb; cbn; lia|]. split; [lia|]. repeat split; try (vm_compute; reflexivity).
+  intros (_ & _ & Hq & _). specialize (Hq 2). vm_compute in Hq. discriminate Hq.
+Qed.
+Print Assumptions C39_barrier_lock_lock_refuted.
+
+(* the rule of dispatch_depends before 786c1edee0 (EVAL_COMM_SEND_TEST filtered on the sender/receiver reported by the
+   test): actor 1 tests its still unpaired receive on mailbox 0, then actor 2 sends on mailbox 0.  The pinned rule
+   declares the two independent whatever the numbering of the comms, yet the test answers 0 in one order and 1 in the
+   other; the repaired rule declares them dependent for every faithful numbering. *)
+Definition c39_s1 : xst := xstep x0 (XC 1 (CRecv 0)).
+Theorem C39_pinned_test_rule_refuted :
+  (forall cid, eval_test_pinned (xcore cid (xstep c39_s1 (XC 1 (CTest 0))) (XC 2 (CSend 0))) (xcore cid c39_s1 (XC 1 (CTest 0))) = Some false) /\
+  xenabled c39_s1 (XC 1 (CTest 0)) = true /\ xenabled c39_s1 (XC 2 (CSend 0)) = true /\
+  O (K (xstep (xstep c39_s1 (XC 1 (CTest 0))) (XC 2 (CSend 0)))) 1 = [0] /\
+  O (K (xstep (xstep c39_s1 (XC 2 (CSend 0))) (XC 1 (CTest 0)))) 1 = [1] /\
+  (forall cid, cid_ok cid (xstep (xstep c39_s1 (XC 1 (CTest 0))) (XC 2 (CSend 0))) ->
+               xdepends cid c39_s1 (XC 1 (CTest 0)) (XC 2 (CSend 0)) = Some true).
+Proof.
+  split; [intros cid; reflexivity|]. repeat split; try (vm_compute; reflexivity).
+  intros cid Hc. specialize (Hc 1 0 2 0 ltac:(lia)).
+  assert (He : cid 1 0 = cid 2 0) by (apply (proj2 Hc); vm_compute; reflexivity).
+  unfold xdepends, depends, depends_with. cbn [xcore comm_core tr_aid unwrap aid ty].
+  change (1 =? 2) with false. cbv iota.
+  change (Nat.ltb (ty {| ty := T_COMM_ASYNC_SEND; aid := 2; o1 := cid 2 (CN (xstep c39_s1 (XC 1 (CTest 0))) 2); o2 := 0; snd_ := -1; rcv_ := -1; tmo := false |}) T_COMM_TEST) with true.
+  cbv iota. cbn [ty]. change (lut_get dep_table T_COMM_ASYNC_SEND T_COMM_TEST) with EVAL_COMM_SEND_TEST.
+  cbn [eval o1 o2]. change (CN (xstep c39_s1 (XC 1 (CTest 0))) 2) with 0.
+  change (rmb (RQ c39_s1 1 0)) with 0. rewrite He, Z.eqb_refl. reflexivity.
+Qed.
+Print Assumptions C39_pinned_test_rule_refuted.
+
+(* the hypotheses of C39_commute_partial are satisfiable: actor 1 tests its unpaired receive on mailbox 0 while actor 2
+   sends on mailbox 1 *)
+Example C39_commute_nonvacuous :
+  xwf c39_s1 /\ xenabled c39_s1 (XC 1 (CTest 0)) = true /\ xenabled c39_s1 (XC 2 (CSend 1)) = true /\
+  cid_ok (fun a _ => a) (xstep (xstep c39_s1 (XC 1 (CTest 0))) (XC 2 (CSend 1))) /\
+  xdepends (fun a _ => a) c39_s1 (XC 1 (CTest 0)) (XC 2 (CSend 1)) = Some false /\
+  bar_side c39_s1 (XC 1 (CTest 0)) (XC 2 (CSend 1)) /\
+  Q (xstep (xstep c39_s1 (XC 1 (CTest 0))) (XC 2 (CSend 1))) 1 = [(true, (2, 0))].
+Proof.
+  split.
+  { unfold xwf. split; [intros m; cbn; unfold wfm; cbn; reflexivity|]. split; [intros k; cbn; lia|].
+    split; [intros b; unfold wfb; cbn; lia|]. split.
+    - intros p. cbn. destruct ((0 <=? p) && (p <? 8)) eqn:E; [|congruence]. intros _. lia.
+    - unfold wfc. split; [intros a; cbn; unfold upd; destruct (a =? 1); lia|]. split.
+      + intros m kd b j. cbn. unfold upd. destruct (Z.eqb_spec m 0); cbn; [|tauto].
+        intros [H|[]]. inversion H; subst. cbn. unfold upd2. cbn. split; [lia|reflexivity].
+      + intros m. exists false. cbn. unfold upd. destruct (m =? 0); cbn; [|tauto]. intros e [H|[]]. subst. reflexivity. }
+  repeat split; try (vm_compute; reflexivity).
+  - intros a k b j Hne. split.
+    + intros ->. congruence.
+    + cbn. unfold upd2. cbn.
+      repeat match goal with |- context [if ?c then _ else _] => destruct c; cbn end; discriminate.
+  - exact I.
 Qed.
